@@ -147,7 +147,8 @@ theorem guard_sim (g : CMeta → Bool) (simA : CSim A SA RA (fun _ => p)) (hrem 
     simp only [CacheOps.step, guardOps]
     by_cases hg : g m
     · simp only [hg, ↓reduceIte]; exact simA s t (.storeMeta m) ha hp
-    · simp only [hg]; exact ⟨ha, outEq_refl _⟩
+    · obtain ⟨h1, _⟩ := simA.remove' m.query ha (hrem _)
+      simp only [hg]; exact ⟨h1, outEq_refl _⟩
   | store st =>
     obtain ⟨h1, _⟩ := simA.remove' st.metadata.query ha (hrem _)
     simp only [CacheOps.step, guardOps]
